@@ -17,6 +17,7 @@ import (
 
 	"github.com/invopop/gobl"
 	"github.com/invopop/gobl/bill"
+	"github.com/invopop/gobl/head"
 	"github.com/invopop/gobl/cal"
 	"github.com/invopop/gobl/internal/cli"
 	"github.com/invopop/gobl/schema"
@@ -25,7 +26,7 @@ import (
 // C15, checks 2–4: op-level interleaving of library callers, the read-only
 // fingerprint of shared definitions, and the race-detector monitor.
 
-var wlOps = []string{"build", "validate", "sign", "verify", "correct", "replicate", "corrschema", "cli-build", "digest"}
+var wlOps = []string{"build", "validate", "sign", "verify", "correct", "correct-shared", "replicate", "corrschema", "cli-build", "digest"}
 
 var (
 	addonMu   sync.Mutex
@@ -80,6 +81,9 @@ func wlSource(c *Ctx, doc, addon string) ([]byte, *Doc) {
 
 // runItem executes one workload item and returns a digest of its outcome with
 // process-generated fields removed.
+// sharedCorrectOpts is one option list with spare capacity, used by every caller.
+var sharedCorrectOpts = append(make([]schema.Option, 0, 8), bill.Credit, bill.WithReason("x"), bill.WithIssueDate(mustDate("2024-06-01")))
+
 func runItem(c *Ctx, doc, addon, op string) string {
 	src, d := wlSource(c, doc, addon)
 	if d == nil {
@@ -132,6 +136,16 @@ func runItem(c *Ctx, doc, addon, op string) string {
 			out = fmt.Sprintf("verify:%v:%v", env.Verify(PubKey(1)) == nil, env.Verify(PubKey(2)) == nil)
 		case "correct":
 			r, err := env.Correct(bill.Credit, bill.WithReason("x"), bill.WithIssueDate(mustDate("2024-06-01")))
+			if err != nil {
+				out = "correct-error:" + H([]byte(err.Error()))
+			} else {
+				out = "corrected:" + H([]byte(normaliseResult(Marshal(r))))
+			}
+		case "correct-shared":
+			// callers that keep one option list and use it for every document: the list has room
+			// to spare, and each envelope carries its own stamp
+			env.Head.AddStamp(&head.Stamp{Provider: "sim-prv-a", Value: "stamp-of-" + H([]byte(doc + "|" + addon))})
+			r, err := env.Correct(sharedCorrectOpts...)
 			if err != nil {
 				out = "correct-error:" + H([]byte(err.Error()))
 			} else {
